@@ -10,6 +10,7 @@ import (
 	"io"
 	"strings"
 	"sync"
+	"sync/atomic"
 	"time"
 
 	"github.com/IrineSistiana/mosdns/v5/pkg/upstream/transport"
@@ -556,5 +557,517 @@ func runC09(r *Run) {
 			closeT()
 		}
 	}
-	r.Finish("part 1: random histories (10..50 operations) of reserve / withdraw / exchange / exchange with a dead context / reply / cancel (+ late reply) / stray reply / peer close on one TraditionalDnsConn, limit 1..4, stream and datagram, probing after every operation how many further queries are admitted; part 2: the same on a connection whose dial is gated (queue limit 1..4), then the dial succeeds with limit >= queue limit, fails, or Close cancels it; part 3: bursts of 2..10 concurrent queries (with cancellations) over both transports with the server counting unanswered queries per connection")
+	concurrentReservers09(r)
+	queuedBeyondLimit09(r)
+	pipelineBurstWhileDialing09(r)
+	r.Finish("part 1: random histories (10..50 operations) of reserve / withdraw / exchange / exchange with a dead context / reply / cancel (+ late reply) / stray reply / peer close on one TraditionalDnsConn, limit 1..4, stream and datagram, probing after every operation how many further queries are admitted; part 2: the same on a connection whose dial is gated (queue limit 1..4), then the dial succeeds with limit >= queue limit, fails, or Close cancels it; part 3: bursts of 2..10 concurrent queries (with cancellations) over both transports with the server counting unanswered queries per connection; part 4: on one TraditionalDnsConn with some reservations held and queries unanswered, 2..13 more callers than it has room for reserve at the same moment (lined up on the connection's lock, which the harness holds through a held SetReadDeadline call, or let loose together), the admitted ones send to a server that never answers and counts unanswered queries, then replies / cancellations and the capacity probe, several bursts per connection, replayed on the model; part 5: 2..16 queries queued on a dialing connection whose dial succeeds with a SMALLER limit (1..4) re-reserve at the same moment, same server-side count, replayed on the composed model; part 6: the same through PipelineTransport (burst while the dial is held, queue limit > connection limit, retries on further connections), unanswered queries counted per connection")
+}
+
+// ---------------------------------------------------------------- concurrent reservers (parts 4..6)
+
+// server09 is the peer of one fakeConn: it never answers by itself, and counts
+// the queries (by tag, so that a datagram resend is not counted twice) it has
+// received and not answered yet.
+type server09 struct {
+	mu         sync.Mutex
+	unanswered map[int]bool
+	max        int
+	total      int
+}
+
+func newServer09(fc *fakeConn) *server09 {
+	s := &server09{unanswered: map[int]bool{}}
+	fc.onWrite = func(c *fakeConn, w []byte) error {
+		q := c.payloadOf(w)
+		if len(q) < 12 {
+			return nil
+		}
+		tag := tagOf(q)
+		s.mu.Lock()
+		if !s.unanswered[tag] {
+			s.unanswered[tag] = true
+			s.total++
+			if len(s.unanswered) > s.max {
+				s.max = len(s.unanswered)
+			}
+		}
+		s.mu.Unlock()
+		return nil
+	}
+	return s
+}
+
+// answer sends the reply to wire query q.
+func (s *server09) answer(fc *fakeConn, q []byte) {
+	s.mu.Lock()
+	delete(s.unanswered, tagOf(q))
+	s.mu.Unlock()
+	fc.feed(fc.frame(mkReply(q, binary.BigEndian.Uint16(q))))
+}
+
+func (s *server09) stats() (max, now, total int) {
+	s.mu.Lock()
+	defer s.mu.Unlock()
+	return s.max, len(s.unanswered), s.total
+}
+
+// releaseGate09 lets the SetReadDeadline call held by fakeConn.armGate go.
+func releaseGate09(fc *fakeConn) {
+	fc.mu.Lock()
+	rel := fc.gateRelease
+	fc.mu.Unlock()
+	if rel == nil {
+		return
+	}
+	defer func() { _ = recover() }() // another SetReadDeadline call let it go at the same moment
+	select {
+	case <-rel:
+	default:
+		close(rel)
+	}
+}
+
+// awaitGate09 waits until a SetReadDeadline call is held at the gate.
+func awaitGate09(entered <-chan struct{}) bool {
+	select {
+	case <-entered:
+		return true
+	case <-time.After(time.Second):
+		return false
+	}
+}
+
+// reserveAtOnce09 lets k callers call rsv at the same moment. If lineUp is
+// given it is called first and must arrange that callers block inside rsv
+// until the returned function is called (the harness cannot see them block:
+// it waits until every caller is about to call and a little longer; a caller
+// that is late simply reserves later, which is just another schedule).
+func reserveAtOnce09(k int, rsv func() (transport.ReservedExchanger, bool), lineUp func() (letGo func())) (admitted []transport.ReservedExchanger) {
+	res := make([]transport.ReservedExchanger, k)
+	var wg sync.WaitGroup
+	var calling int32
+	start := make(chan struct{})
+	var letGo func()
+	if lineUp != nil {
+		letGo = lineUp()
+		close(start)
+	}
+	for i := 0; i < k; i++ {
+		wg.Add(1)
+		go func(i int) {
+			defer wg.Done()
+			atomic.AddInt32(&calling, 1)
+			<-start
+			res[i], _ = rsv()
+		}(i)
+	}
+	for i := 0; i < 20000 && atomic.LoadInt32(&calling) < int32(k); i++ {
+		time.Sleep(50 * time.Microsecond)
+	}
+	if letGo != nil {
+		time.Sleep(2 * time.Millisecond)
+		letGo()
+	} else {
+		close(start)
+	}
+	wg.Wait()
+	for _, rx := range res {
+		if rx != nil {
+			admitted = append(admitted, rx)
+		}
+	}
+	return admitted
+}
+
+func rep09(label string, n int) string {
+	l := make([]string, n)
+	for i := range l {
+		l[i] = label
+	}
+	return strings.Join(l, "+")
+}
+
+// part 4: more callers than the connection has room for reserve at the same moment.
+func concurrentReservers09(r *Run) {
+	conns := r.N(10, 150)
+	for ci := 0; ci < conns; ci++ {
+		limit := 1 + r.Rng.Intn(4)
+		stream := r.Rng.Intn(2) == 0
+		fc := newFakeConn(20000+ci, stream)
+		srv := newServer09(fc)
+		dc := transport.NewDnsConn(transport.TraditionalDnsConnOpts{WithLengthHeader: stream, IdleTimeout: 10 * time.Second, MaxConcurrentQuery: limit}, fc)
+		var holders []transport.ReservedExchanger
+		var inflight []*call09
+		var ops, outs []string
+		quiet, lastFree := false, 0
+		emit := func(op, out string) {
+			free := probe09(dc.ReserveNewQuery)
+			lastFree = free
+			ops = append(ops, op)
+			outs = append(outs, fmt.Sprintf("%s:%d", out, free))
+			if !quiet && free != limit-len(holders)-len(inflight) {
+				r.Fail("a live connection does not admit exactly limit - (reservations + unanswered queries) further queries", map[string]any{
+					"limit": limit, "history": strings.Join(ops, ","), "reservations_held": len(holders), "unanswered": len(inflight), "admits": free, "stream": stream})
+			}
+			r.Count("burst-op:" + strings.SplitN(op, "+", 2)[0])
+		}
+		enterAll := func() {
+			if len(holders) == 0 {
+				return
+			}
+			var calls []*call09
+			for _, rx := range holders {
+				calls = append(calls, startCall09(rx, false))
+			}
+			n := len(holders)
+			holders = nil
+			for _, c := range calls {
+				if findWrite09(fc, c, 4*time.Second) {
+					inflight = append(inflight, c)
+				} else {
+					r.Fail("a reserved query on a live connection was not sent", map[string]any{"limit": limit, "history": strings.Join(ops, ","), "err": fmt.Sprint(c.err)})
+				}
+			}
+			emit(rep09("enter1", n), "a")
+		}
+		bursts := 1 + r.Rng.Intn(3)
+		for bi := 0; bi < bursts; bi++ {
+			// what the connection carries before the burst
+			for i := r.Rng.Intn(limit + 1); i > 0; i-- {
+				rx, _ := dc.ReserveNewQuery()
+				if rx == nil {
+					emit("reserve", "r")
+					break
+				}
+				holders = append(holders, rx)
+				emit("reserve", "a")
+				if r.Rng.Intn(2) == 0 {
+					enterAll()
+				}
+			}
+			room := limit - len(holders) - len(inflight)
+			k := room + 1 + r.Rng.Intn(12)
+			if k < 2 {
+				k = 2
+			}
+			forced := r.Rng.Intn(4) != 0
+			op := rep09("reserve", k)
+			var lineUp func() func()
+			if forced {
+				// a reply nobody waits for sends the reader round its loop; its SetReadDeadline call is held, and with
+				// it whatever lock the connection holds across that call (the unchanged code: the queue lock)
+				op = "stray+" + op
+				lineUp = func() func() {
+					entered := fc.armGate(2 * time.Second)
+					fc.feed(fc.frame(mkReply(mkQuery(0, 424242), uint16(40000+r.Rng.Intn(20000)))))
+					if !awaitGate09(entered) {
+						r.Count("burst:gate-not-reached")
+					}
+					return func() { releaseGate09(fc) }
+				}
+			}
+			admitted := reserveAtOnce09(k, dc.ReserveNewQuery, lineUp)
+			if forced {
+				fc.waitDrained(time.Second)
+			}
+			holders = append(holders, admitted...)
+			out := "r"
+			if len(admitted) > 0 {
+				out = "a"
+			}
+			carried := len(holders) + len(inflight)
+			desc := map[string]any{"limit": limit, "stream": stream, "history_before": strings.Join(ops, ","), "reservations_and_unanswered_before": limit - room,
+				"concurrent_reserve_calls": k, "admitted": len(admitted), "lined_up_on_the_connection_lock": forced}
+			free := probe09(dc.ReserveNewQuery)
+			lastFree = free
+			ops = append(ops, op)
+			outs = append(outs, fmt.Sprintf("%s:%d", out, free))
+			// the admitted callers (and the earlier holders) send their queries; the server never answers
+			quiet = true
+			enterAll()
+			quiet = false
+			_, now, _ := srv.stats()
+			desc["unanswered_queries_seen_by_the_server"] = now
+			if now > limit {
+				r.Fail("a connection carries more unanswered queries than its limit: callers reserving at the same moment were all admitted", desc)
+				r.Count("burst:over-limit")
+				break // what follows on this connection would only repeat it
+			}
+			if len(admitted) < room {
+				r.Fail("a live connection holding fewer queries than its limit refused a caller (concurrent reservations)", desc)
+			}
+			if free != limit-carried || lastFree != limit-len(inflight) {
+				desc["admits_after_the_burst"], desc["admits_after_the_queries_were_sent"] = free, lastFree
+				r.Fail("after concurrent reservations a live connection does not admit exactly limit - (reservations + unanswered queries) further queries", desc)
+			}
+			r.Count(fmt.Sprintf("burst:callers-over-room:%d", k-room))
+			r.Count(fmt.Sprintf("burst:forced:%v", forced))
+			// the queries end: answered, or abandoned with the reply arriving late
+			n := r.Rng.Intn(len(inflight) + 1)
+			if bi == bursts-1 {
+				n = len(inflight)
+			}
+			for ; n > 0; n-- {
+				i := r.Rng.Intn(len(inflight))
+				c := inflight[i]
+				inflight = append(inflight[:i], inflight[i+1:]...)
+				if r.Rng.Intn(2) == 0 {
+					srv.answer(fc, c.wireQ)
+					if !c.wait(4*time.Second) || c.err != nil {
+						r.Fail("an answered query did not return its reply", map[string]any{"history": strings.Join(ops, ","), "err": fmt.Sprint(c.err)})
+					}
+					emit("reply+exit0", "-")
+				} else {
+					c.cancel()
+					c.wait(4 * time.Second)
+					srv.answer(fc, c.wireQ)
+					fc.waitDrained(time.Second)
+					emit("exit1+stray", "-")
+				}
+			}
+		}
+		for _, c := range inflight {
+			c.cancel()
+		}
+		dc.Close()
+		r.Line(fmt.Sprintf("tdc %d %s", limit, strings.Join(ops, ",")), strings.Join(outs, ";"))
+		r.Eval(fmt.Sprintf("tdc-burst/%d", ci), true)
+		r.Count(fmt.Sprintf("burst-limit:%d", limit))
+		r.Trace()
+	}
+}
+
+// part 5: queries queued on a dialing connection re-reserve at the same moment on a
+// connection that turns out to have a smaller limit than the queue.
+func queuedBeyondLimit09(r *Run) {
+	rounds := r.N(10, 150)
+	for ri := 0; ri < rounds; ri++ {
+		a := 2 + r.Rng.Intn(15) // queue limit while dialing
+		b := a - 1              // limit of the dialed connection
+		if b > 4 {
+			b = 4
+		}
+		b = 1 + r.Rng.Intn(b)
+		n := b + 1 + r.Rng.Intn(a-b) // queued queries: more than the connection will take
+		forced := r.Rng.Intn(4) != 0
+		fc := newFakeConn(30000+ri, true)
+		srv := newServer09(fc)
+		gate := make(chan struct{})
+		var realDc *transport.TraditionalDnsConn
+		dialed := make(chan struct{})
+		lc := transport.VerifNewLazyDnsConn(func(ctx context.Context) (transport.DnsConn, error) {
+			defer close(dialed)
+			select {
+			case <-gate:
+			case <-ctx.Done():
+				return nil, ctx.Err()
+			}
+			var entered <-chan struct{}
+			if forced {
+				// the reader's first SetReadDeadline call is held, and with it whatever lock the connection holds across it
+				entered = fc.armGate(2 * time.Second)
+			}
+			realDc = transport.NewDnsConn(transport.TraditionalDnsConnOpts{WithLengthHeader: true, IdleTimeout: 10 * time.Second, MaxConcurrentQuery: b}, fc)
+			if forced && !awaitGate09(entered) {
+				r.Count("queued:gate-not-reached")
+			}
+			return realDc, nil
+		}, 5*time.Second, a)
+		var parked []*call09
+		var ops, outs []string
+		for i := 0; i < n; i++ {
+			rx, _ := lc.ReserveNewQuery()
+			if rx == nil {
+				r.Fail("a dialing connection refused a query below its queue limit", map[string]any{"queue_limit": a, "queued": i})
+				break
+			}
+			parked = append(parked, startCall09(rx, false))
+			free := probe09(lc.ReserveNewQuery)
+			ops = append(ops, "l.reserve+l.enter")
+			outs = append(outs, fmt.Sprintf("a:%d", free))
+			if free != a-len(parked) {
+				r.Fail("a dialing connection does not admit exactly queue limit - queued queries", map[string]any{"queue_limit": a, "queued": len(parked), "admits": free})
+			}
+		}
+		time.Sleep(time.Duration(200+r.Rng.Intn(800)) * time.Microsecond) // the callers park in ExchangeReserved
+		close(gate)
+		select {
+		case <-dialed:
+		case <-time.After(3 * time.Second):
+		}
+		if forced {
+			// the dial goroutine returns the connection once the reader is held; the queued callers then line up behind it
+			time.Sleep(2 * time.Millisecond)
+			releaseGate09(fc)
+		}
+		var inflight, refused []*call09
+		for _, c := range parked {
+			if findWrite09(fc, c, 4*time.Second) {
+				inflight = append(inflight, c)
+			} else {
+				c.wait(time.Second)
+				refused = append(refused, c)
+			}
+		}
+		_, now, _ := srv.stats()
+		free := probe09(lc.ReserveNewQuery)
+		op := "l.dialOk"
+		if len(inflight) > 0 {
+			op += "+" + rep09("l.proceed+t.enter1", len(inflight))
+		}
+		if len(refused) > 0 {
+			op += "+" + rep09("l.proceed", len(refused))
+		}
+		out := "r"
+		if len(inflight) > 0 {
+			out = "a"
+		}
+		ops = append(ops, op)
+		outs = append(outs, fmt.Sprintf("%s:%d", out, free))
+		desc := map[string]any{"queue_limit_while_dialing": a, "connection_limit": b, "queued_queries": n, "sent_on_the_connection": len(inflight), "refused": len(refused),
+			"unanswered_queries_seen_by_the_server": now, "lined_up_on_the_connection_lock": forced, "admits_afterwards": free}
+		if now > b {
+			r.Fail("a connection carries more unanswered queries than its limit: queries queued while it was dialing were all admitted at once", desc)
+			r.Count("queued:over-limit")
+		} else if free != b-len(inflight) {
+			r.Fail("after the dial, a live connection does not admit exactly limit - unanswered queries", desc)
+		}
+		if len(inflight) < b {
+			r.Fail("a live connection holding fewer queries than its limit refused a query that was queued while it was dialing", desc)
+		}
+		overLimit := now > b
+		for len(inflight) > 0 {
+			i := r.Rng.Intn(len(inflight))
+			c := inflight[i]
+			inflight = append(inflight[:i], inflight[i+1:]...)
+			if r.Rng.Intn(2) == 0 {
+				srv.answer(fc, c.wireQ)
+				c.wait(4 * time.Second)
+				if c.err != nil {
+					r.Fail("an answered query did not return its reply", map[string]any{"history": strings.Join(ops, ","), "err": fmt.Sprint(c.err)})
+				}
+				ops = append(ops, "t.reply+t.exit0")
+			} else {
+				c.cancel()
+				c.wait(4 * time.Second)
+				ops = append(ops, "t.exit1")
+			}
+			free := probe09(lc.ReserveNewQuery)
+			outs = append(outs, fmt.Sprintf("-:%d", free))
+			if free != b-len(inflight) && !overLimit {
+				desc["admits_afterwards"], desc["unanswered"] = free, len(inflight)
+				r.Fail("capacity was lost on a connection that refused queued queries: it does not admit limit - unanswered queries", desc)
+			}
+		}
+		lc.Close()
+		if realDc != nil {
+			realDc.Close()
+		}
+		r.Line(fmt.Sprintf("sys %d %d %s", a, b, strings.Join(ops, ",")), strings.Join(outs, ";"))
+		r.Eval(fmt.Sprintf("sys-burst/%d", ri), true)
+		r.Count(fmt.Sprintf("queued:forced:%v", forced))
+		r.Count(fmt.Sprintf("queued:over-limit-by:%d", n-b))
+		r.Trace()
+	}
+}
+
+// part 6: the same through PipelineTransport: a burst while the dial is held, queue
+// limit larger than the limit of the dialed connections. Queries that do not fit
+// fail or are retried on further connections; no connection may exceed its limit.
+func pipelineBurstWhileDialing09(r *Run) {
+	rounds := r.N(8, 80)
+	for ri := 0; ri < rounds; ri++ {
+		b := 1 + r.Rng.Intn(3)
+		a := b + 1 + r.Rng.Intn(12)
+		n := a + r.Rng.Intn(3)
+		forced := r.Rng.Intn(4) != 0
+		var mu sync.Mutex
+		var conns []*fakeConn
+		var srvs []*server09
+		dialGo := make(chan struct{})
+		t := transport.NewPipelineTransport(transport.PipelineOpts{MaxConcurrentQueryWhileDialing: a, DialContext: func(ctx context.Context) (transport.DnsConn, error) {
+			select {
+			case <-dialGo:
+			case <-ctx.Done():
+				return nil, ctx.Err()
+			}
+			mu.Lock()
+			fc := newFakeConn(40000+ri*100+len(conns), true)
+			conns = append(conns, fc)
+			srvs = append(srvs, newServer09(fc))
+			mu.Unlock()
+			var entered <-chan struct{}
+			if forced {
+				entered = fc.armGate(2 * time.Second)
+			}
+			dc := transport.NewDnsConn(transport.TraditionalDnsConnOpts{WithLengthHeader: true, IdleTimeout: 10 * time.Second, MaxConcurrentQuery: b}, fc)
+			if forced {
+				awaitGate09(entered)
+				time.AfterFunc(2*time.Millisecond, func() { releaseGate09(fc) })
+			}
+			return dc, nil
+		}})
+		ctx, cancel := context.WithTimeout(context.Background(), 10*time.Second)
+		var wg sync.WaitGroup
+		var started, finished int32
+		for i := 0; i < n; i++ {
+			wg.Add(1)
+			go func(i int) {
+				defer wg.Done()
+				atomic.AddInt32(&started, 1)
+				_, _ = t.ExchangeContext(ctx, mkQuery(uint16(i), 600000+ri*1000+i))
+				atomic.AddInt32(&finished, 1)
+			}(i)
+		}
+		for i := 0; i < 20000 && atomic.LoadInt32(&started) < int32(n); i++ {
+			time.Sleep(50 * time.Microsecond)
+		}
+		time.Sleep(time.Duration(1+r.Rng.Intn(3)) * time.Millisecond) // they queue up on the dialing connection(s)
+		close(dialGo)
+		// every query ends up unanswered at the server or failed
+		settled := false
+		for deadline := time.Now().Add(5 * time.Second); time.Now().Before(deadline); time.Sleep(200 * time.Microsecond) {
+			sent := 0
+			mu.Lock()
+			for _, s := range srvs {
+				_, _, total := s.stats()
+				sent += total
+			}
+			mu.Unlock()
+			if sent+int(atomic.LoadInt32(&finished)) >= n {
+				settled = true
+				break
+			}
+		}
+		mu.Lock()
+		worst, sent := 0, 0
+		var perConn []int
+		for _, s := range srvs {
+			max, _, total := s.stats()
+			perConn = append(perConn, max)
+			sent += total
+			if max > worst {
+				worst = max
+			}
+		}
+		nconns := len(conns)
+		mu.Unlock()
+		desc := map[string]any{"transport": "pipeline", "queue_limit_while_dialing": a, "connection_limit": b, "concurrent_queries_while_the_dial_is_held": n,
+			"connections": nconns, "max_unanswered_per_connection_seen_by_the_server": perConn, "queries_sent": sent, "queries_failed": int(atomic.LoadInt32(&finished)),
+			"lined_up_on_the_connection_lock": forced}
+		if worst > b {
+			r.Fail("a connection carried more unanswered queries than its limit (burst queued while the connection was dialing)", desc)
+			r.Count("pipeline-dialing:over-limit")
+		}
+		if !settled {
+			r.Count("pipeline-dialing:not-settled")
+		}
+		cancel()
+		wg.Wait()
+		t.Close()
+		r.Eval(fmt.Sprintf("burst/pipeline-dialing/%d", ri), true)
+		r.Count(fmt.Sprintf("pipeline-dialing:forced:%v", forced))
+		r.Count(fmt.Sprintf("pipeline-dialing:connections:%d", nconns))
+		r.Trace()
+	}
 }
